@@ -39,6 +39,23 @@ F_DISAGREE, F_PROPFAIL, F_SKIP = 1, 2, 4
 # Coq literal helpers
 
 
+
+def _annotate_closed(prop, clauses):
+    """append the present theorem status to partial clauses that later theorem files closed or narrowed
+    (harness/closed_clauses.json); the engines' texts are kept as the record of what was partial when written"""
+    try:
+        table = json.load(open(os.path.join(os.path.dirname(os.path.abspath(__file__)), "closed_clauses.json"))).get(prop, [])
+    except Exception:
+        table = []
+    out = []
+    for c in clauses:
+        for sub, note in table:
+            if sub in c:
+                c = c + "  [UPDATE: " + note + "]"
+        out.append(c)
+    return out
+
+
 def cnat(n: int) -> str:
     assert isinstance(n, int) and n >= 0, n
     return str(n)
@@ -554,7 +571,7 @@ def run_check(prop: str, engine_mods, tier: str, seed: int, replay: str | None =
             "disagreements": sum(p["disagreements"] for p in parts),
             "known_findings_matched": sorted({k for p in parts for k in p["known_findings_matched"]}),
             "samples": [s for p in parts for s in p["samples"]],
-            "partial_clauses": [c for p in parts for c in p["partial_clauses"]],
+            "partial_clauses": _annotate_closed(prop, [c for p in parts for c in p["partial_clauses"]]),
             "correspondence": [p["correspondence"] for p in parts],
             "anchors_changed": anchors_changed,
             "static_tie": static_tie,
